@@ -68,7 +68,19 @@ fn strat_fit(t: Tier) -> BoxedStrategy<FitCase> {
             let d = data[0].len();
             (Just((class, data, k.max(2), max_iter, seed)), vec(unit_vec(d).prop_map(|v| v.iter().map(|x| x * 4.0).collect::<Vec<f64>>()), 4))
         })
-        .prop_map(|((class, data, k, max_iter, seed), queries)| FitCase { class, data, k, max_iter, seed, queries })
+        .prop_flat_map(|((class, data, k, max_iter, seed), queries)| {
+            // one case in four: rows and queries translated exactly by +-2^e per coordinate (see strat_bbd)
+            let d = data[0].len();
+            (Just((class, data, k, max_iter, seed, queries)), prop_oneof![3 => Just(None), 1 => (8i32..=27, vec(any::<bool>(), d)).prop_map(Some)])
+        })
+        .prop_map(|((class, data, k, max_iter, seed, queries), shift)| match shift {
+            None => FitCase { class, data, k, max_iter, seed, queries },
+            Some((e, neg)) => {
+                let o: Vec<f64> = neg.iter().map(|n| if *n { -(2f64.powi(e)) } else { 2f64.powi(e) }).collect();
+                let tr = |p: &Pts| -> Pts { p.iter().map(|r| r.iter().zip(&o).map(|(x, s)| x + s).collect()).collect() };
+                FitCase { class: format!("{}+offset", class), data: tr(&data), k, max_iter, seed, queries: tr(&queries) }
+            }
+        })
         .boxed()
 }
 
@@ -117,6 +129,13 @@ fn check_fit(case: &FitCase, ctx: &mut Ctx) -> Result<(), Fail> {
     ensure!(cnt == size, "kmeans/size", "reported sizes {:?}, counts of the stored assignment {:?}", size, cnt);
     ensure!(size.iter().sum::<usize>() == n, "kmeans/size-sum", "sizes sum to {} for {} rows", size.iter().sum::<usize>(), n);
     let scale = case.data.iter().flatten().fold(0.0f64, |m, x| m.max(x.abs())).max(1e-300);
+    let extent = (0..d)
+        .map(|j| {
+            let (lo, hi) = all_q.iter().fold((f64::INFINITY, f64::NEG_INFINITY), |(lo, hi), r| (lo.min(r[j]), hi.max(r[j])));
+            hi - lo
+        })
+        .fold(0.0f64, f64::max);
+    ctx.label_if(scale > 200.0, "large-common-offset");
     let mut empty = 0;
     for c in 0..k {
         if size[c] == 0 {
@@ -125,7 +144,8 @@ fn check_fit(case: &FitCase, ctx: &mut Ctx) -> Result<(), Fail> {
         }
         for j in 0..d {
             let mean = (0..n).filter(|i| y[*i] == c).map(|i| case.data[i][j]).sum::<f64>() / size[c] as f64;
-            ctx.bound("kmeans/centroid-is-mean", (cents[c][j] - mean).abs(), 1e-9 * scale)?;
+            // a mean of n numbers of magnitude <= scale carries at most n * eps * scale of rounding error
+            ctx.bound("kmeans/centroid-is-mean", (cents[c][j] - mean).abs(), 64.0 * f64::EPSILON * n as f64 * scale)?;
         }
     }
     ctx.label_if(empty > 0, "has-empty-cluster");
@@ -136,7 +156,7 @@ fn check_fit(case: &FitCase, ctx: &mut Ctx) -> Result<(), Fail> {
         ensure!(p >= 0.0 && p.fract() == 0.0 && (p as usize) < k, "kmeans/predict-range", "prediction {}", p);
         let ds: Vec<f64> = cents.iter().map(|c| sqd(row, c)).collect();
         let mn = ds.iter().cloned().fold(f64::INFINITY, f64::min);
-        ensure!(ds[p as usize] <= mn + 1e-12 * (mn + scale * scale), "kmeans/predict-not-nearest", "row {:?} assigned to centroid {} at squared distance {:e}, nearest is at {:e}", row, p, ds[p as usize], mn);
+        ensure!(ds[p as usize] <= mn + 1e-12 * (mn + scale * extent * d as f64), "kmeans/predict-not-nearest", "row {:?} assigned to centroid {} at squared distance {:e}, nearest is at {:e}", row, p, ds[p as usize], mn);
     }
     Ok(())
 }
